@@ -150,7 +150,18 @@ fn main() {
         if r1 != r2 || !r1.contains(sig) {
             eprintln!("signature {sig}: replay gave {r1:?} then {r2:?}");
             let path = write_replay(v, 900 + n);
-            machinery(&format!("violation does not reproduce deterministically from its replay file {path}"));
+            if prop == "C20" && v.replay.get("model").and_then(|m| m.as_str()) == Some("agent") {
+                // For C20 this is the property itself: the same call history, replayed on fresh
+                // agents of this process, does not give the same replies every time (the explorer
+                // saw `sig`, two replays of the recorded history gave r1 and r2).
+                n += 1;
+                unlisted += 1;
+                println!("  C20/replies-not-reproducible — replaying the recorded history on fresh agents gives different replies from one execution to the next\n    expected: identical replies on every replay (explorer saw {sig})\n    observed: first replay {r1:?}, second replay {r2:?}");
+                println!("VIOLATION property=C20 replay={}", path);
+                notes.push(format!("history whose replies are not reproducible: {path}"));
+                continue;
+            }
+            machinery(&format!("violation does not reproduce deterministically from its replay file {path} (if this is an agent check, ambient state in the agent is a possible cause: run C20)"));
         }
         if v.property != prop {
             // attributed to another property (shared transition function): evidence note only
